@@ -316,7 +316,7 @@ Qed.
 (* ------------------------------------------------------------------ anatomy of a successful partition *)
 Record anatomy (c : dcfg) (glen : N) (ms : list meta) (kept dropped : list meta) (sorted : list sub) : Prop := {
   an_not_modified : match mbefore c with Some ts => was_modified ts (survivors c glen ms) = false | None => True end;
-  an_sorted : sort_all (prio c) (subgroups c (survivors c glen ms)) = Some sorted;
+  an_sorted : sort_all (decisive (prio c)) (subgroups c (survivors c glen ms)) = Some sorted;
   an_kept : kept = concat (filter (forced c) sorted
                            ++ firstn (nkeep c - length (filter (forced c) sorted))
                                      (filter (fun g => negb (forced c g)) sorted));
@@ -330,7 +330,7 @@ Proof.
   unfold partition. intros H.
   destruct (match mbefore c with Some ts => was_modified ts (survivors c glen ms) | None => false end) eqn:Em;
     [discriminate|].
-  destruct (sort_all (prio c) (subgroups c (survivors c glen ms))) as [sorted|] eqn:Es; [|discriminate].
+  destruct (sort_all (decisive (prio c)) (subgroups c (survivors c glen ms))) as [sorted|] eqn:Es; [|discriminate].
   rewrite partition_filter in H.
   destruct (_ || _) in H; [|discriminate]. injection H as <- <-.
   exists sorted. split; auto.
@@ -344,7 +344,7 @@ Proof.
   unfold partition.
   destruct (match mbefore c with Some ts => was_modified ts (survivors c glen ms) | None => false end);
     [discriminate|].
-  destruct (sort_all (prio c) (subgroups c (survivors c glen ms))) as [sorted|]; [|discriminate].
+  destruct (sort_all (decisive (prio c)) (subgroups c (survivors c glen ms))) as [sorted|]; [|discriminate].
   rewrite partition_filter.
   set (retain := filter (forced c) sorted). set (drop := filter (fun g => negb (forced c g)) sorted).
   set (missing := Nat.min (length drop) (nkeep c - length retain)).
@@ -368,7 +368,7 @@ Section Anatomy.
   Let k := nkeep c - length retain.
 
   Lemma an_perm_sorted : Permutation sorted subs.
-  Proof. apply (sort_all_perm (prio c)). apply An. Qed.
+  Proof. apply (sort_all_perm (decisive (prio c))). apply An. Qed.
 
   Lemma an_split : Permutation ((retain ++ firstn k drop) ++ skipn k drop) subs.
   Proof.
